@@ -10,7 +10,7 @@ from trie.exceptions import NodeOverrideError  # noqa: E402
 from eth_hash.auto import keccak  # noqa: E402
 
 ID = "C12"
-LEAN_IMPORTS = ["PyTrie.Props.C12", "PyTrie.Props.RawLevel", "PyTrie.Props.NonVacuity"]
+LEAN_IMPORTS = ["PyTrie.Props.C12", "PyTrie.Props.RawLevel", "PyTrie.Props.NonVacuity", "PyTrie.Props.NonVacuity2"]
 THEOREMS = [
     "PyTrie.Props.C12.canon_run",
     "PyTrie.Props.C12.get_step",
@@ -38,6 +38,9 @@ THEOREMS = [
     "PyTrie.Props.Raw.bin_history",
     "PyTrie.Props.Raw.bin_history_tree",
     "PyTrie.Props.Raw.bin_history_get",
+    "PyTrie.Props.NonVacuity2.bin_history_witness",
+    "PyTrie.Props.NonVacuity2.bin_history_get_witness",
+    "PyTrie.Props.NonVacuity2.bops_reach",
 ]
 RULE = ("histories of set / delete / delete_subtrie (method and dict syntax) over fixed-length and variable-length key pools "
         "with prefix-related keys, keys differing at every bit position of a byte, repeated values; after every call the outcome "
